@@ -131,7 +131,9 @@ theorem applyShutdown_inv {A : List (List (Nat → Act))} {s : Sim} (h : SimInv 
   cases req with
   | none => exact h
   | some restart =>
-    have h1 : SimInv A { s with mods := s.mods.set mi { m with active := false, sleepers := [] } } :=
+    have h1 : SimInv A { s with mods := s.mods.set mi { m with
+        active := false, sleepers := [], hung := []
+        cancelled := m.cancelled ++ m.sleepers.map (·.2.id) ++ m.hung } } :=
       ⟨set_acts_inv h.acts hA _ hm, h.log⟩
     cases restart with
     | none => exact h1
@@ -261,9 +263,25 @@ theorem simStart_inv {A : List (List (Nat → Act))} {s : Sim} (h : SimInv A s) 
     · exact hs'
   · exact hs'
 
+theorem teardown_log (s : Sim) (mi : Nat) : (s.teardown mi).log = (s.moduleEvent mi .simEnd false).log := by
+  unfold Sim.teardown
+  simp only
+  split <;> rfl
+
+theorem teardown_inv {A : List (List (Nat → Act))} {s : Sim} (h : SimInv A s) (mi : Nat) :
+    SimInv A (s.teardown mi) := by
+  have h1 := moduleEvent_inv h mi .simEnd false
+  unfold Sim.teardown
+  simp only
+  cases hm : (s.moduleEvent mi .simEnd false).mods[mi]? with
+  | none => exact h1
+  | some m =>
+    have hA : A[mi]? = some m.acts := by rw [← h1.acts, List.getElem?_map, hm]; rfl
+    exact ⟨set_acts_inv h1.acts hA _ rfl, h1.log⟩
+
 theorem simEnd_inv {A : List (List (Nat → Act))} {s : Sim} (h : SimInv A s) : SimInv A s.simEnd := by
   unfold Sim.simEnd
-  exact foldl_inv (SimInv A) _ (fun s mi hs => moduleEvent_inv hs _ _ _) _ _ h
+  exact foldl_inv (SimInv A) _ (fun s mi hs => teardown_inv hs mi) _ _ h
 
 theorem init_inv (cfg : Config) : SimInv (cfg.mods.map ModRt.acts) (Sim.init cfg) := by
   unfold Sim.init
@@ -619,17 +637,37 @@ theorem endItemsAt_pushes (c : Ctx) (es : List ElemRt) (j : Nat) :
   | none => rfl
   | some e => simp only [endItems, List.filterMap_cons, push_call, emits_pushes]
 
+/-- what the tasks that resume push -/
+def wokenEvents (c : Ctx) (l : Sleepers) : List (KEvent × Nat) :=
+  l.filterMap fun s => match s.2.fin with
+    | .send e => some (e.event c)
+    | _ => none
+
 theorem sleepers_pushes (c : Ctx) (l : Sleepers) :
-    (l.map (fun s => s.2.toItem c)).filterMap Item.push? = l.map (fun s => s.2.event c) := by
+    (wokenItems c l).filterMap Item.push? = wokenEvents c l := by
   induction l with
   | nil => rfl
-  | cons e l ih => simp [toItem_push, ih]
+  | cons e l ih =>
+    have hcons : wokenItems c (e :: l) = (e.2.item? c).toList ++ wokenItems c l := by
+      simp only [wokenItems, List.filterMap_cons]
+      cases e.2.item? c <;> rfl
+    have hcons' : wokenEvents c (e :: l) =
+        (match e.2.fin with | .send x => [x.event c] | _ => []) ++ wokenEvents c l := by
+      simp only [wokenEvents, List.filterMap_cons]
+      cases e.2.fin <;> rfl
+    rw [hcons, hcons', List.filterMap_append, ih]
+    congr 1
+    unfold Task.item?
+    cases e.2.fin with
+    | send x => simp [toItem_push]
+    | panic => rfl
+    | hang => rfl
 
 /-- the pushes of one bracket, in program order -/
 def pushShape (c : Ctx) (m : ModRt) (kind : Kind) (woken : Sleepers) : List (KEvent × Nat) :=
   (List.range m.elems.length).flatMap (upPushesAt c m.elems kind.msg?)
     ++ handlerPushes c m kind (msgAt m.acts kind.msg? m.elems.length)
-    ++ woken.map (fun s => s.2.event c)
+    ++ wokenEvents c woken
     ++ (List.range m.elems.length).reverse.flatMap (endPushesAt c m.elems)
 
 theorem bracket_pushes (c : Ctx) (m : ModRt) (kind : Kind) (woken : Sleepers) :
